@@ -9,8 +9,9 @@ configurations and choice sequences + exhaustive DFS over *all* schedules of eve
 configuration with <= 2 frames; thorough: exhaustive for <= 4 frames.
 
 Oracle (trace predicate): items put on the buffer = the requested frames, each exactly
-once, in order, with their own frame_idx / video_idx / orig_size / pixel content, followed
-by exactly one end marker and nothing after it; with a read fault at k: the frames before
+once, in order, with their own frame_idx / video_idx / orig_size / pixel content (the pool
+contains an image-sequence video whose frames differ in size: every frame carries ITS OWN
+height/width, not the video-level shape), followed by exactly one end marker and nothing after it; with a read fault at k: the frames before
 k, then exactly one marker.  Consumer: same frames in the same order, full batches except
 the last, generator terminates, reader thread finished, queue empty, no deadlock.
 """
@@ -25,8 +26,9 @@ from vlib.runner import Part, Result
 PROPERTY = "C13"
 LEVEL = "exploration"
 RULE = (
-    "a case is a reader configuration (VideoReader range / LabelsReader frame list over 1-2 videos of "
-    "different size, queue capacity, batch size, optional read fault at frame k raising Exception or a "
+    "a case is a reader configuration (VideoReader range over a uniform-size video or over a mixed-size image "
+    "sequence whose frames cycle through 3 sizes (first image not the largest) / LabelsReader frame list over "
+    "1-3 such videos of different size, queue capacity, batch size, optional read fault at frame k raising Exception or a "
     "BaseException subclass) plus either an explicit choice sequence (sampled part) or the instruction to "
     "enumerate every schedule by DFS over the choice points (exhaustive parts; each schedule is one "
     "evaluation); non-trivial = the schedule(s) contain a put that blocked on a full queue and a get that "
@@ -37,11 +39,26 @@ ASSUMPTIONS = [
     "liveness is bounded: 'terminates under every schedule of the explored size' (deadlock = no runnable thread)",
     "frames come from real PNG-backed sio.Video objects whose backend get_frame is wrapped (harness subclass) to add the yield point and the fault",
     "max_height/max_width of the consumer are set to the maximum over the videos, as a training config records them",
+    "a mixed-size video is an image sequence (list of PNG files of different sizes): sleap-io returns each image at its own "
+    "size and the predictor batches them through the size matcher; max_height/max_width are then the maximum over its frames",
 ]
 
 N_SRC = 6  # frames per source video
-SIZES = [(8, 12), (10, 6)]  # (H, W) of video 0 / 1
+SIZES = [(8, 12), (10, 6)]  # (H, W) of the uniform-size videos 0 / 1
+MIXED = 2  # pool video 2: an image sequence whose frames differ in size
+MIX_SIZES = [(6, 10), (9, 7), (4, 14)]  # frame i of video 2 has MIX_SIZES[i % 3]; the FIRST image (= video.shape) is not the largest
+N_VID = 3
+OS_ASSET_HW = (384, 384)  # frame size of the two repo test assets used by the os-threads part
 _POOL = {}
+
+
+def _frame_hw(v, i):
+    """Own (H, W) of frame i of pool video v - harness-side ground truth (the PNGs are written from it)."""
+    return MIX_SIZES[i % len(MIX_SIZES)] if v == MIXED else SIZES[v]
+
+
+def _video_max_hw(v):
+    return max(_frame_hw(v, i)[0] for i in range(N_SRC)), max(_frame_hw(v, i)[1] for i in range(N_SRC))
 
 
 class _SimKill(BaseException):
@@ -57,16 +74,17 @@ def _pool():
 
     d = env.scratch_dir("c13")
     paths = []
-    for v, (h, w) in enumerate(SIZES):
+    for v in range(N_VID):
         ps = []
         for i in range(N_SRC):
+            h, w = _frame_hw(v, i)
             arr = np.full((h, w), 40 * v + i + 1, dtype=np.uint8)
             p = os.path.join(d, f"v{v}_{i:02d}.png")
             iio.imwrite(p, arr)
             ps.append(p)
         paths.append(ps)
     _POOL["paths"] = paths
-    # the same two videos embedded in ONE .pkg.slp: both sio.Video objects then share their filename
+    # the same videos embedded in ONE .pkg.slp: all sio.Video objects then share their filename
     # (they differ only by HDF5 dataset), as every multi-video package file does
     import sleap_io as sio
 
@@ -93,7 +111,7 @@ def _make_video(v, hook):
 
 
 def _embedded_videos(hook):
-    """Fresh Video objects of the two-video package file (same filename, different datasets), hooked."""
+    """Fresh Video objects of the multi-video package file (same filename, different datasets), hooked."""
     import sleap_io as sio
 
     vids = sio.load_slp(_pool()["pkg"]).videos
@@ -153,17 +171,19 @@ def run_schedule(cfg, choices):
     fails = []
     q = sched.SchedQueue(S, maxsize=cfg["cap"])
     if cfg["reader"] == "video":
-        vid = _make_video(0, hook)
+        vsrc = cfg.get("vid", 0)  # pool video read by the VideoReader (2 = mixed-size image sequence)
+        vid = _make_video(vsrc, hook)
         base = VideoReader
         # a requested range reaching beyond the video is a natural read failure at index N_SRC
         expected = list(range(cfg["start"] if cfg["start"] is not None else 0, min(N_SRC, cfg["end"] if cfg["end"] is not None else N_SRC)))
         exp_items = [(0, i) for i in expected]
         if fault is not None and fault["at"] in expected:
             exp_items = exp_items[: expected.index(fault["at"])]
-        max_hw = SIZES[0]
+        exp_src = [vsrc] * len(exp_items)
+        max_hw = _video_max_hw(vsrc)
     else:
-        vids = _embedded_videos(hook) if cfg.get("embedded") else [_make_video(0, hook), _make_video(1, hook)]
         used = sorted({v for v, _ in cfg["frames"]})
+        vids = _embedded_videos(hook) if cfg.get("embedded") else {v: _make_video(v, hook) for v in used}
         videos = [vids[v] for v in used]
         skel = sio.Skeleton(["a"])
         lfs = [
@@ -176,7 +196,7 @@ def run_schedule(cfg, choices):
         exp_src = [v for v, _ in cfg["frames"]]
         if fault is not None and fault["at"] < len(exp_items):
             exp_items = exp_items[: fault["at"]]
-        max_hw = (max(SIZES[v][0] for v in used), max(SIZES[v][1] for v in used)) if used else SIZES[0]
+        max_hw = (max(_video_max_hw(v)[0] for v in used), max(_video_max_hw(v)[1] for v in used)) if used else SIZES[0]
 
     class Reader(base):  # only wraps run/start/join with scheduler notifications
         def run(self):
@@ -272,10 +292,13 @@ def run_schedule(cfg, choices):
         fails.append(("producer:frames", f"put (video,frame) {got}, expected {exp_items}"))
     else:
         for k, it in enumerate(frames_put):
-            src_v = 0 if cfg["reader"] == "video" else exp_src[k]
-            h, w = SIZES[src_v]
+            src_v = exp_src[k]
+            h, w = _frame_hw(src_v, exp_items[k][1])  # the frame's OWN size
             if [int(x) for x in it["orig_size"]] != [h, w]:
-                fails.append(("producer:orig-size", f"item {k}: orig_size {it['orig_size'].tolist()} expected {[h, w]}"))
+                fails.append((
+                    "producer:orig-size" + (":mixed-size-video" if src_v == MIXED else ""),
+                    f"item {k} (pool video {src_v} frame {exp_items[k][1]}): orig_size {it['orig_size'].tolist()} expected the frame's own size {[h, w]}",
+                ))
             if tuple(it["image"].shape) != (1, 1, h, w) or int(it["image"].flatten()[0]) != 40 * src_v + exp_items[k][1] + 1:
                 fails.append(("producer:content", f"item {k}: image shape {tuple(it['image'].shape)} / pixel {int(it['image'].flatten()[0])}"))
     # ---- oracle on the consumer
@@ -290,9 +313,14 @@ def run_schedule(cfg, choices):
         fails.append(("consumer:frames", f"records {[(a, b) for a, b, _, _ in rec_items]}, expected {exp_items}"))
     else:
         for k, (a, b, pix, osz) in enumerate(rec_items):
-            src_v = 0 if cfg["reader"] == "video" else exp_src[k]
-            if abs(pix - (40 * src_v + b + 1)) > 0.51 or osz != list(SIZES[src_v]):
-                fails.append(("consumer:record-mismatch", f"record {k}: pixel {pix}, orig_size {osz} for video {src_v} frame {b}"))
+            src_v = exp_src[k]
+            own = list(_frame_hw(src_v, b))
+            # pixel tolerance: the (constant) image went through /255, resize+pad of the size matcher and *255 in float32
+            if abs(pix - (40 * src_v + b + 1)) > 0.51 or osz != own:
+                fails.append((
+                    "consumer:record-mismatch" + (":mixed-size-video" if src_v == MIXED and osz != own else ""),
+                    f"record {k}: pixel {pix}, orig_size {osz} for pool video {src_v} frame {b} (own size {own})",
+                ))
     if threading.Thread.is_alive(reader):
         fails.append(("reader-alive", "reader thread still alive after the generator finished"))
     if not q._empty():
@@ -307,6 +335,14 @@ def evaluate(case):
         res.cls("range-beyond-video")
     if cfg.get("embedded"):
         res.cls("labels:embedded-package(shared filename)")
+    deliv = _delivered(cfg)
+    if any(v == MIXED for v, _ in _requested(cfg)):
+        # the video-level shape (first image) is NOT the size of every frame
+        res.cls(f"mixed-size-video:{cfg['reader']}")
+        n_other = sum(1 for v, i in deliv if v == MIXED and _frame_hw(v, i) != MIX_SIZES[0])
+        res.cls("mixed-size-video:delivers-frame-of-non-first-size" if n_other else "mixed-size-video:only-first-size-delivered")
+        if len({_frame_hw(v, i) for v, i in deliv}) >= 2:
+            res.cls(f"mixed-size-video:{cfg['reader']}:>=2-distinct-sizes-delivered")
     res.cls(
         f"reader={cfg['reader']}", f"cap={cfg['cap']}", f"batch={cfg['batch']}",
         "fault=" + (cfg["fault"]["kind"] if cfg.get("fault") else "none"),
@@ -336,6 +372,27 @@ def evaluate(case):
     return res
 
 
+def _requested(cfg):
+    """(pool video, frame index) of every requested frame that exists, in request order."""
+    if cfg["reader"] == "video":
+        s = cfg["start"] if cfg["start"] is not None else 0
+        e = cfg["end"] if cfg["end"] is not None else N_SRC
+        return [(cfg.get("vid", 0), i) for i in range(s, min(e, N_SRC))]
+    return [(v, i) for v, i in cfg["frames"]]
+
+
+def _delivered(cfg):
+    """The requested frames that precede the injected fault (class labels only; the oracle derives its own list)."""
+    req = _requested(cfg)
+    f = cfg.get("fault")
+    if f is None:
+        return req
+    if cfg["reader"] == "video":
+        idx = [i for _, i in req]
+        return req[: idx.index(f["at"])] if f["at"] in idx else req
+    return req[: f["at"]]
+
+
 def _n_frames(cfg):
     if cfg["reader"] == "video":
         s = cfg["start"] if cfg["start"] is not None else 0
@@ -360,6 +417,13 @@ def config_space(max_frames, caps, batches):
                         faults += [{"at": k, "kind": "exception"}, {"at": k, "kind": "base"}]
                     for f in faults:
                         out.append({"reader": "video", "start": start, "end": end, "cap": cap, "batch": batch, "fault": f})
+                # the same ranges over the mixed-size image sequence (start 1: the first frame delivered does not have
+                # the first image's size); the schedule x fault space is the one above, so only no-fault and a fault
+                # at the last frame are repeated
+                if n >= 1:
+                    start, end = 1, 1 + n
+                    for f in (None, {"at": end - 1, "kind": "exception"}):
+                        out.append({"reader": "video", "vid": MIXED, "start": start, "end": end, "cap": cap, "batch": batch, "fault": f})
             # LabelsReader: frames over one or two videos
             for n in range(0, max_frames + 1):
                 for layout in ("one", "two"):
@@ -371,6 +435,11 @@ def config_space(max_frames, caps, batches):
                         out.append({"reader": "labels", "frames": frames, "cap": cap, "batch": batch, "fault": f})
                     if layout == "two" and cap in (1, 2) and batch in (1, 2):
                         out.append({"reader": "labels", "frames": frames, "cap": cap, "batch": batch, "fault": None, "embedded": True})
+                # labeled frames of the mixed-size video (alone for n <= 1, else alternating with video 0)
+                if n >= 1:
+                    frames = [[MIXED, 1 + i // 2] if i % 2 == 0 else [0, 1 + i] for i in range(n)]
+                    for f in (None, {"at": n - 1, "kind": "exception"}):
+                        out.append({"reader": "labels", "frames": frames, "cap": cap, "batch": batch, "fault": f})
     return out
 
 
@@ -380,7 +449,9 @@ def enum_cases(tier):
         cfgs += [c for c in config_space(3, caps=[1, 2], batches=[2]) if _n_frames(c) == 3]
     else:
         cfgs = config_space(4, caps=[1, 2, 3, 4, 0], batches=[1, 2, 3, 4])
-        cfgs += [c for c in config_space(5, caps=[1, 2, 0], batches=[2, 4]) if _n_frames(c) == 5]
+        # (the mixed-size variants stop at 4 frames: their schedule space is the one of the uniform configurations,
+        # repeating the 5-frame layer for them would add ~40 % to the part for no new interleaving)
+        cfgs += [c for c in config_space(5, caps=[1, 2, 0], batches=[2, 4]) if _n_frames(c) == 5 and not any(v == MIXED for v, _ in _requested(c))]
     for c in cfgs:
         yield {"cfg": c, "exhaustive": True, "max_runs": 200000}
 
@@ -390,7 +461,9 @@ def strategy():
 
     @st.composite
     def case(draw):
-        reader = draw(st.sampled_from(["video", "labels"]))
+        # one joint choice: reader x source (VideoReader over the uniform video 0 / the mixed-size sequence;
+        # LabelsReader over frames of the uniform videos only / of all three pool videos)
+        reader, src = draw(st.sampled_from([("video", 0), ("video", MIXED), ("labels", "uniform"), ("labels", "all"), ("labels", "all")]))
         cap = draw(st.sampled_from([1, 1, 2, 3, 4, 0]))
         batch = draw(st.integers(1, 4))
         if reader == "video":
@@ -400,12 +473,14 @@ def strategy():
                 start = draw(st.integers(0, N_SRC))
                 end = draw(st.integers(start, N_SRC + 2))  # may reach beyond the video: reading index N_SRC fails
             cfg = {"reader": "video", "start": start, "end": end, "cap": cap, "batch": batch}
+            if src != 0:
+                cfg["vid"] = src
             s, e = (0 if start is None else start), (N_SRC if end is None else end)
             idxs = list(range(s, min(e, N_SRC)))
         else:
             n = draw(st.integers(0, 6))
             frames = sorted(
-                draw(st.lists(st.tuples(st.integers(0, 1), st.integers(0, N_SRC - 1)), min_size=n, max_size=n, unique=True))
+                draw(st.lists(st.tuples(st.integers(0, 1 if src == "uniform" else N_VID - 1), st.integers(0, N_SRC - 1)), min_size=n, max_size=n, unique=True))
             )
             if draw(st.booleans()):
                 frames = list(draw(st.permutations(frames)))
@@ -424,7 +499,8 @@ def strategy():
 
 
 def evaluate_os(case):
-    """Smoke layer: un-instrumented path (from_filename, real Queue, OS scheduling)."""
+    """Smoke layer: un-instrumented path (from_filename, real Queue, OS scheduling); sources: the repo's mp4 / package
+    assets and the pool's mixed-size image sequence (list of PNGs) / three-video package; every record's orig_size is checked."""
     import torch
     from sleap_nn.data.providers import LabelsReader, VideoReader
     from sleap_nn.inference.predictors import SingleInstancePredictor
@@ -434,10 +510,26 @@ def evaluate_os(case):
     if case["reader"] == "video":
         reader = VideoReader.from_filename("/repo/tests/assets/centered_pair_small.mp4", case["cap"], case["start"], case["end"])
         expected = [(0, i) for i in range(case["start"], case["end"])]
+        exp_hw = [OS_ASSET_HW] * len(expected)
         hw = reader.max_height_and_width
+    elif case["reader"] == "video-mixed":
+        # image sequence with frames of different sizes, given as a list of files (a range beyond it ends at the read failure)
+        res.cls("os:mixed-size-video:video")
+        reader = VideoReader.from_filename(list(_pool()["paths"][MIXED]), case["cap"], case["start"], case["end"])
+        expected = [(0, i) for i in range(case["start"], min(case["end"], N_SRC))]
+        exp_hw = [_frame_hw(MIXED, i) for _, i in expected]
+        hw = _video_max_hw(MIXED)
+    elif case["reader"] == "labels-pool":
+        # the pool's package file: three videos (one of mixed frame sizes), every frame labeled, in file order
+        res.cls("os:mixed-size-video:labels")
+        reader = LabelsReader.from_filename(_pool()["pkg"], case["cap"])
+        expected = [(v, i) for v in range(N_VID) for i in range(N_SRC)]
+        exp_hw = [_frame_hw(v, i) for v, i in expected]
+        hw = (max(_video_max_hw(v)[0] for v in range(N_VID)), max(_video_max_hw(v)[1] for v in range(N_VID)))
     else:
         reader = LabelsReader.from_filename("/repo/tests/assets/minimal_instance.pkg.slp", case["cap"])
         expected = [(reader.labels.videos.index(lf.video), lf.frame_idx) for lf in reader.labels]
+        exp_hw = [OS_ASSET_HW] * len(expected)
         hw = reader.max_height_and_width
     pred = SingleInstancePredictor()
     pred.inference_model = lambda ex: [{"frame_idx": ex["frame_idx"], "video_idx": ex["video_idx"], "orig_size": ex["orig_size"]}]
@@ -470,6 +562,16 @@ def evaluate_os(case):
     got = [(int(v), int(f)) for r in out["records"] for v, f in zip(r["video_idx"], r["frame_idx"])]
     if got != expected:
         res.fail("os-threads:frames", f"records {got} expected {expected} ({case})")
+    else:
+        got_hw = [tuple(int(x) for x in sz) for r in out["records"] for sz in r["orig_size"]]
+        bad = [k for k in range(len(expected)) if got_hw[k] != tuple(exp_hw[k])]
+        if bad:
+            mixed = case["reader"] in ("video-mixed", "labels-pool")
+            k = bad[0]
+            res.fail(
+                "os-threads:orig-size" + (":mixed-size-video" if mixed else ""),
+                f"{len(bad)} records with a wrong orig_size, first: frame {expected[k]} carries {got_hw[k]}, its own size is {tuple(exp_hw[k])} ({case})",
+            )
     if any(len(r["frame_idx"]) > case["batch"] for r in out["records"]):
         res.fail("os-threads:batch-size", f"batch larger than {case['batch']}")
     if reader.is_alive():
@@ -485,7 +587,7 @@ def strategy_os():
 
     @st.composite
     def case(draw):
-        reader = draw(st.sampled_from(["video", "video", "labels"]))
+        reader = draw(st.sampled_from(["video", "video", "labels", "video-mixed", "video-mixed", "labels-pool"]))
         start = draw(st.integers(0, 6))
         return {
             "reader": reader,
@@ -537,7 +639,8 @@ def extra_coverage():
     return {
         "exhaustive_domain": "every schedule (DFS over all choice points) of every configuration with <= 2 frames (quick: capacities {1,2,unbounded} x batch 1..3; "
         "plus 3 frames for capacities {1,2}, batch 2) / <= 4 frames (thorough: capacities {1..4,unbounded} x batch 1..4; plus 5 frames for capacities {1,2,unbounded}, batch {2,4}), "
-        "both readers, every fault position and kind",
+        "both readers, every fault position and kind; plus the same ranges / frame lists over the mixed-size image sequence "
+        "(VideoReader from frame 1; LabelsReader alternating mixed video / video 0; quick <= 3 frames, thorough <= 4 frames) without fault and with a fault at the last frame",
         "evaluations_are": "scheduler executions (one per schedule)",
     }
 
